@@ -476,6 +476,43 @@ def check_fresh(prog, rep, K, stats):
             rep.ok(R, construct, "writes no storage of the object and stores nothing on it")
 
 
+def check_projection_ploidy(prog, rep):
+    """R7-ploidy (projection): the unphased projection of a phased matrix is built with the ploidy of its source - every statistic of the projection divides by it,
+    and the constructor's default (2) is right for diploids only"""
+    for mod, cname in (("pybrops.breed.prot.gt.DenseUnphasedGenotyping", "DenseUnphasedGenotyping"), ("pybrops.breed.prot.gt.DenseMaskedUnphasedGenotyping", "DenseMaskedUnphasedGenotyping")):
+        try:
+            K = prog.get_class(cname, mod)
+        except Exception:
+            continue
+        f = K.methods.get("genotype")
+        if f is None:
+            continue
+        rep.saw(f)
+        src = f.params()[1] if len(f.params()) > 1 else "pgmat"
+        ctors = [c for c in walk_no_nested(f.node) if isinstance(c, ast.Call) and isinstance(c.func, ast.Name) and c.func.id == "DenseGenotypeMatrix"]
+        if len(ctors) != 1:
+            rep.unrec("R7-ploidy", f.qualname, "construction of the unphased matrix not found")
+            continue
+        kws, stars = kwargs_of(ctors[0])
+        defs = {}
+        for st in walk_no_nested(f.node):
+            if isinstance(st, ast.Assign) and len(st.targets) == 1 and isinstance(st.targets[0], ast.Name):
+                defs.setdefault(st.targets[0].id, []).append(st.value)
+        v = kws.get("ploidy")
+        if isinstance(v, ast.Name) and len(defs.get(v.id, [])) == 1:
+            v = defs[v.id][0]
+        hidden = [s_ for s_ in stars if not (isinstance(s_, ast.Name) and s_.id == (f.node.args.kwarg.arg if f.node.args.kwarg else None))]
+        if v is None and hidden:
+            rep.unrec("R7-ploidy", f.qualname, "constructor keywords are passed through %s" % dump(hidden[0])[:40])
+        elif v is None:
+            rep.violate("R7-ploidy", f.qualname, "the unphased matrix is built without ploidy=: it gets the constructor default 2 whatever the number of phases of the source "
+                        "(allele frequencies, heterozygosity and genotype classes of a haploid / tetraploid projection are wrong)", where(f, ctors[0]), "ploidy=%s.ploidy" % src, "absent")
+        elif dump(v) in ("%s.ploidy" % src, "%s.nphase" % src):
+            rep.ok("R7-ploidy", f.qualname, "projection built with ploidy=%s" % dump(v))
+        else:
+            rep.violate("R7-ploidy", f.qualname, "the unphased matrix is built with ploidy=%s, not the ploidy of its source" % dump(v)[:40], where(f, ctors[0]), "ploidy=%s.ploidy" % src, dump(v)[:40])
+
+
 def run(prog, rep, tier):
     rep.explanation = ("Spec congruence of every statistic with its definition through an algebraic normal form (both genotype classes), structural rule for the "
                        "genotype-class count, complement forms, a forward taint (reciprocal-multiply values reaching comparisons with 1) with function summaries, "
@@ -491,4 +528,5 @@ def run(prog, rep, tier):
         check_accumulators(prog, rep, K, STATS)
         check_ploidy_carried(prog, rep, K)
         check_fresh(prog, rep, K, STATS)
+    check_projection_ploidy(prog, rep)
     check_exactness(prog, rep, tier, sink_filter=NOT_SELECTION)
